@@ -1,6 +1,8 @@
 import XV.Driver.Util
 import XV.Driver.Utf8
 import XV.Driver.Regex
+import XV.Driver.ContentModel
+import XV.Driver.DtdValid
 open XV.Driver
 
 def main (args : List String) : IO UInt32 := do
@@ -9,5 +11,8 @@ def main (args : List String) : IO UInt32 := do
   match args with
   | ["utf8"] => lineLoop stdin stdout XV.Driver.Utf8.handle; return 0
   | ["regex"] => lineLoop stdin stdout XV.Driver.Regex.handle; return 0
+  | ["cm"] => lineLoop stdin stdout XV.Driver.ContentModel.handle; return 0
+  | ["cmspec"] => lineLoop stdin stdout XV.Driver.ContentModel.handleSpec; return 0
+  | ["dtdspec"] => lineLoop stdin stdout XV.Driver.DtdValid.handle; return 0
   | ["utf8spec"] => lineLoop stdin stdout XV.Driver.Utf8.handleSpec; return 0
   | _ => IO.eprintln "usage: xvdriver <area>"; return 2
